@@ -54,6 +54,14 @@ func loadFamily(w *World, pkg, recv string) *traceFamily {
 	for _, fn := range w.methodsOf(pkg, recv) {
 		f.Methods[fn.Name()] = fn
 	}
+	// package-level functions can be pinned as helpers too
+	if sp := w.SSAPkgs[pkg]; sp != nil {
+		for name, m := range sp.Members {
+			if fn, ok := m.(*ssa.Function); ok && f.Methods[name] == nil && fn.Blocks != nil {
+				f.Methods[name] = fn
+			}
+		}
+	}
 	return f
 }
 
